@@ -89,6 +89,8 @@ type Op struct {
 	JSON        bool              `json:"json,omitempty"`     // WithMeta datatype
 	XRaw        []byte            `json:"xraw,omitempty"`     // WithMeta xattrs blob
 	BadJSONX    bool              `json:"badJsonX,omitempty"` // an unparseable xattr value is injected
+	BadName     bool              `json:"badName,omitempty"`  // an unsupported xattr path ("_b.sub") is put in the middle of the name list
+	SpecInCb    bool              `json:"specInCb,omitempty"` // WriteUpdateWithXattrs: macros are returned by the callback (UpdatedDoc.Spec), not passed in the options
 }
 
 // Variant is a short label identifying the op shape for coverage cells and signatures.
@@ -134,6 +136,12 @@ func (o *Op) Variant() string {
 	}
 	if o.BadJSONX {
 		sb.WriteString("+badjson")
+	}
+	if o.BadName {
+		sb.WriteString("+badname")
+	}
+	if o.SpecInCb {
+		sb.WriteString("+cbspec")
 	}
 	return sb.String()
 }
@@ -274,6 +282,17 @@ func mutateOpts(o *Op, always bool) *sgbucket.MutateInOptions {
 	return mo
 }
 
+const badXattrName = "_b.sub"
+
+// names returns the xattr name list of the op; with BadName an unsupported path sits after the first name.
+func (o *Op) names() []string {
+	if !o.BadName || len(o.XDel) == 0 {
+		return o.XDel
+	}
+	out := []string{o.XDel[0], badXattrName}
+	return append(out, o.XDel[1:]...)
+}
+
 func (o *Op) xdelArg() []string {
 	if len(o.XDel) > 0 {
 		return o.XDel
@@ -382,9 +401,9 @@ func Exec(b *rosmar.Bucket, c *rosmar.Collection, o *Op) (res Result) {
 		res.HasCas = true
 		res.CasOut, err = c.SetXattrs(ctx, o.Key, xarg(o))
 	case KRemoveX:
-		err = c.RemoveXattrs(ctx, o.Key, o.XDel, o.Cas)
+		err = c.RemoveXattrs(ctx, o.Key, o.names(), o.Cas)
 	case KDelPaths:
-		err = c.DeleteSubDocPaths(ctx, o.Key, o.XDel...)
+		err = c.DeleteSubDocPaths(ctx, o.Key, o.names()...)
 	case KUpdateX:
 		res.HasCas = true
 		res.CasOut, err = c.UpdateXattrs(ctx, o.Key, o.Exp, o.Cas, xarg(o), mutateOpts(o, false))
@@ -405,7 +424,12 @@ func Exec(b *rosmar.Bucket, c *rosmar.Collection, o *Op) (res Result) {
 		res.HasCas = true
 		calls := 0
 		names := append([]string(nil), XattrPool...)
-		res.CasOut, err = c.WriteUpdateWithXattrs(ctx, o.Key, names, 0, nil, mutateOpts(o, true),
+		wopts := mutateOpts(o, true)
+		var cbSpec []sgbucket.MacroExpansionSpec
+		if o.SpecInCb {
+			cbSpec, wopts.MacroExpansion = wopts.MacroExpansion, nil
+		}
+		res.CasOut, err = c.WriteUpdateWithXattrs(ctx, o.Key, names, 0, nil, wopts,
 			func(doc []byte, xattrs map[string][]byte, cas uint64) (sgbucket.UpdatedDoc, error) {
 				calls++
 				cv := CbView{Body: append([]byte(nil), doc...), X: xstrings(xattrs), Cas: cas}
@@ -413,7 +437,7 @@ func Exec(b *rosmar.Bucket, c *rosmar.Collection, o *Op) (res Result) {
 					cv.Body = nil
 				}
 				res.CbSaw = append(res.CbSaw, cv)
-				ud := sgbucket.UpdatedDoc{Xattrs: xarg(o), XattrsToDelete: o.xdelArg(), Expiry: o.CbExp}
+				ud := sgbucket.UpdatedDoc{Xattrs: xarg(o), XattrsToDelete: o.xdelArg(), Expiry: o.CbExp, Spec: cbSpec}
 				switch o.Mode {
 				case "body": // body + xattrs
 					ud.Doc = body
@@ -435,7 +459,7 @@ func Exec(b *rosmar.Bucket, c *rosmar.Collection, o *Op) (res Result) {
 			res.HasCas = false
 		}
 	case KDeleteWX:
-		err = c.DeleteWithXattrs(ctx, o.Key, o.XDel)
+		err = c.DeleteWithXattrs(ctx, o.Key, o.names())
 	case KSetMeta:
 		var dt sgbucket.FeedDataType = sgbucket.FeedDataTypeRaw
 		if o.JSON {
